@@ -174,6 +174,129 @@ fn c17(scn: u64) {
     if scn % 3 == 0 { c17_run::<u32>(scn, || 5, false) } else { c17_run::<Seed>(scn, || Seed(Box::new(3)), true) }
 }
 
+// ---------------------------------------------------------------- C07 / C13: readers vs reloads on the real locks and atomics
+mod hot {
+    use assets_manager::hot_reloading::EventSender;
+    use assets_manager::source::{DirEntry, FileContent, OwnedDirEntry, Source};
+    use assets_manager::{loader, Asset, AssetCache, BoxedError};
+    use std::collections::HashMap;
+    use std::io;
+    use std::sync::{Arc, Mutex};
+
+    #[derive(Clone, Default)]
+    pub struct Mem {
+        files: Arc<Mutex<HashMap<String, Vec<u8>>>>,
+        tx: Arc<Mutex<Option<EventSender>>>,
+    }
+    impl Mem {
+        pub fn put(&self, id: &str, v: u64) {
+            self.files.lock().unwrap().insert(id.to_string(), v.to_string().into_bytes());
+        }
+        pub fn notify(&self, id: &str) {
+            if let Some(tx) = &*self.tx.lock().unwrap() {
+                let _ = tx.send(OwnedDirEntry::File(id.into(), "v".into()));
+            }
+        }
+    }
+    impl Source for Mem {
+        fn read(&self, id: &str, _ext: &str) -> io::Result<FileContent<'_>> {
+            match self.files.lock().unwrap().get(id) {
+                Some(b) => Ok(FileContent::Buffer(b.clone())),
+                None => Err(io::ErrorKind::NotFound.into()),
+            }
+        }
+        fn read_dir(&self, _id: &str, _f: &mut dyn FnMut(DirEntry)) -> io::Result<()> {
+            Err(io::ErrorKind::NotFound.into())
+        }
+        fn exists(&self, _e: DirEntry) -> bool {
+            false
+        }
+        fn make_source(&self) -> Option<Box<dyn Source + Send>> {
+            Some(Box::new(self.clone()))
+        }
+        fn configure_hot_reloading(&self, ev: EventSender) -> Result<(), BoxedError> {
+            *self.tx.lock().unwrap() = Some(ev);
+            Ok(())
+        }
+    }
+    /// multi-word Copy value: every word equals the version
+    #[derive(Clone, Copy)]
+    pub struct Words(pub [u64; 24]);
+    impl From<u64> for Words {
+        fn from(v: u64) -> Words {
+            Words([v; 24])
+        }
+    }
+    impl Asset for Words {
+        const EXTENSION: &'static str = "v";
+        type Loader = loader::LoadFrom<u64, loader::ParseLoader>;
+    }
+    /// heap-owning value (drop accounting through Miri's leak / use-after-free detection)
+    pub struct Heap(pub Vec<u64>);
+    impl From<u64> for Heap {
+        fn from(v: u64) -> Heap {
+            Heap(vec![v; 8])
+        }
+    }
+    impl Asset for Heap {
+        const EXTENSION: &'static str = "v";
+        type Loader = loader::LoadFrom<u64, loader::ParseLoader>;
+    }
+
+    pub fn c07(scn: u64) {
+        let mut r = super::Rng(scn);
+        let mem = Mem::default();
+        mem.put("a", 1);
+        let cache = AssetCache::with_source(mem.clone());
+        let h = cache.load::<Words>("a").unwrap();
+        let hh = cache.load::<Heap>("a").unwrap();
+        let nreaders = 1 + r.below(2) as usize;
+        let reloads = 1 + r.below(2);
+        let plans: Vec<Vec<u64>> = (0..nreaders).map(|_| (0..1 + r.below(3)).map(|_| r.below(4)).collect()).collect();
+        std::thread::scope(|s| {
+            for plan in &plans {
+                s.spawn(move || {
+                    for p in plan {
+                        match p {
+                            0 => {
+                                let c = h.copied();
+                                assert!(c.0.iter().all(|w| *w == c.0[0]), "C07: copied() returned a mixture");
+                            }
+                            1 => {
+                                let g = h.read();
+                                let first = g.0[0];
+                                let id0 = h.last_reload_id();
+                                std::thread::yield_now();
+                                assert!(g.0.iter().all(|w| *w == first), "C07: value changed under a guard");
+                                assert_eq!(h.last_reload_id(), id0, "C07: reload id changed under a guard");
+                            }
+                            2 => {
+                                let g = hh.read();
+                                let v = g.0.clone();
+                                std::thread::yield_now();
+                                assert_eq!(*g.0, v[..], "C13: heap value changed under a guard");
+                            }
+                            _ => {
+                                let g = assets_manager::AssetReadGuard::map(hh.read(), |x| &x.0[..]);
+                                let first = g[0];
+                                std::thread::yield_now();
+                                assert!(g.iter().all(|w| *w == first), "C07: mapped guard sees a mixture");
+                            }
+                        }
+                    }
+                });
+            }
+            for v in 0..reloads {
+                mem.put("a", 2 + v);
+                mem.notify("a");
+                cache.hot_reload();
+                assert_eq!(h.read().0[0], 2 + v, "C07: hot_reload returned before the reload was finished");
+            }
+        });
+        drop(cache);
+    }
+}
+
 fn main() {
     let a: Vec<String> = std::env::args().collect();
     let scn: u64 = a.get(2).and_then(|s| s.parse().ok()).unwrap_or(0);
@@ -183,6 +306,7 @@ fn main() {
         Some("C16") => c16(scn),
         Some("C17") => c17(scn),
         Some("C18") => c18(scn),
-        _ => { eprintln!("usage: kernels C16|C17|C18 <scenario>"); std::process::exit(2) }
+        Some("C07") => hot::c07(scn),
+        _ => { eprintln!("usage: kernels C07|C16|C17|C18 <scenario>"); std::process::exit(2) }
     }
 }
